@@ -3,7 +3,7 @@ import PyxModel.Oal.Lex
 /-!
   Helper lemmas for the OAL lexer model (Props/C13.lean, Props/C08.lean).
 -/
-namespace Pyx.Oal
+namespace Pyx.OalLex
 
 /-! ## positions -/
 
@@ -1032,4 +1032,4 @@ theorem slice_map (f : Char → Char) (text : List Char) (a b : Nat) :
   unfold slice
   rw [List.map_take, List.map_drop]
 
-end Pyx.Oal
+end Pyx.OalLex
